@@ -857,7 +857,11 @@ impl<'a> Parser<'a> {
                     ix += 3;
                     loop {
                         if ix >= self.re.len() {
-                            return Err(Error::ParseError(ix, ParseError::UnclosedOpenParen));
+                            // an escape at the very end steps ix past the end; report the end
+                            return Err(Error::ParseError(
+                                self.re.len(),
+                                ParseError::UnclosedOpenParen,
+                            ));
                         }
                         match bytes[ix] {
                             b')' => {
